@@ -525,9 +525,9 @@ func (a *BigInt) M__round__(digits Object) (Object, error) {
 		scale := new(big.Int).Exp((*big.Int)(bigInt10), negB, nil)
 		digits := new(big.Int).Mod(r, scale)
 		r.Sub(r, digits)
-		// Round
+		// Round half to even
 		digits.Lsh(digits, 1)
-		if digits.Cmp(scale) >= 0 {
+		if c := digits.Cmp(scale); c > 0 || (c == 0 && new(big.Int).Quo(r, scale).Bit(0) != 0) {
 			r.Add(r, scale)
 		}
 		if negative {
